@@ -32,6 +32,9 @@ def units(tier, seed):
     step_specs = c01.scope_specs(tier, seed)[: (5 if q else 99)]
     if q:
         step_specs.append({"sid": "list", "family": "astral", "size": 5, "donor": ("astral", 4)})
+    # every ReplaceAroundStep quadruple x slice x insert offset (incl. offsets inside a text node of the slice)
+    step_specs.append({"sid": "basic", "family": "blocks2", "size": 4 if q else 5, "donor": ("blocks2", 4), "all_around": True,
+                       "tag": "all-quadruples", "blocks": 4})
     for u in common.doc_units(PROPERTY_ID, step_specs, per_scope_blocks=8 if q else 16):
         u["kind"] = "steps"
         out.append(u)
